@@ -74,13 +74,24 @@ def run_case(case):
             must_equal(x, z, 'restored snapshot')
             # evolve both
             k = case['k']
-            x.steps(k)
-            y.steps(k)
-            must_equal(x, y, 'copy and source after %d steps each' % k)
             treemode = spec.get('gravity') == 'tree' or spec.get('collision') in ('tree', 'linetree')
             shash = rt.state_hash_unordered if treemode else rt.state_hash   # see C05: the tree re-orders the particle array
-            if shash(x) != shash(y):
-                viol.append(dict(mech='copy:evolves-differently' + (':tree-mode-with-collisions' if treemode and spec.get('collision', 'none') != 'none' else ''), msg='copy and source differ after %d steps' % k))
+            if treemode and spec.get('collision', 'none') != 'none':
+                # known finding: collision resolution depends on the particle-array order, which the (non-persisted) tree determines.
+                # That explains a divergence only if both runs resolved collisions in exactly the same steps up to the divergence.
+                div, explained = rt.lockstep_tree_collisions(x, y, k, shash)
+                counters['tree_collision_locksteps'] = counters.get('tree_collision_locksteps', 0) + 1
+                if div is not None:
+                    viol.append(dict(mech='copy:evolves-differently:tree-mode-with-collisions' if explained else 'copy:evolves-differently:tree-mode:collisions-detected-in-different-steps',
+                                     msg='copy and source differ at step %d of %d (collision events source %r copy %r)' % (div, k, rt.coll_events(x), rt.coll_events(y))))
+                else:
+                    must_equal(x, y, 'copy and source after %d steps each' % k)
+            else:
+                x.steps(k)
+                y.steps(k)
+                must_equal(x, y, 'copy and source after %d steps each' % k)
+                if shash(x) != shash(y):
+                    viol.append(dict(mech='copy:evolves-differently', msg='copy and source differ after %d steps' % k))
             # heap noise, then rebuild everything at different addresses
             noise = [ctypes.create_string_buffer(random.Random(rep).randrange(16, 70000)) for _ in range(50)]
             x = build()
